@@ -173,6 +173,31 @@ def evaluate(run, lines, meta, exe, drv):
         if tag(m) != tag(o):
             run.disagree('so-read', case, show(o)[:200], show(m)[:200])
 
+def typed_writers(run, exe, tier, seed):
+    """the typed writers and readers on the corpus of Rust types: SpecificSingleObjectWriter::new (header of the type's
+    own schema) and ::builder().resolved(S) for the same schema published under another namespace (header of S)"""
+    import c16
+    n = 4 if tier == 'quick' else 60
+    lines = ['%s|%d (serde %s %d )' % (t, i, t, seed * 1000 + i) for t in c16.TYPES for i in range(n)]
+    out = fw.run_lines(exe, lines)
+    for k, v in sorted(out.items()):
+        o = parse(v)
+        t = k.split('|')[0]
+        case = {'type': t, 'seed_index': k.split('|')[1]}
+        if tag(o) != 'obs' or len(o) < 12 or tag(o[11]) != 'extra':
+            continue
+        run.evaluations += 1
+        so_, explicit = o[11][1], o[11][4] if len(o[11]) > 4 else None
+        run.count('typed-writer:' + show(so_))
+        if show(so_) != '(ok 1 1 1 1)':
+            run.fail('typed-single-object-differs', 'SpecificSingleObjectWriter::new().write_ref / SpecificSingleObjectReader::read on %s: [count, C3 01 + fingerprint of the schema + the datum bytes, typed read back, generic read] = %s' % (t, show(so_)), case)
+        if explicit is not None and tag(explicit) != 'skipped':
+            run.count('typed-writer-explicit-schema:' + show(explicit))
+            if show(explicit) != '(ok 1 1 1)':
+                run.fail('typed-writer-explicit-schema-header', 'SpecificSingleObjectWriter::builder().resolved(S) on %s: [S has another fingerprint, header = fingerprint of S, the reader for S reads the message] = %s' % (t, show(explicit)), case)
+            else:
+                run.nontrivial_case('typed' + k)
+
 def run(tier, seed):
     run_ = fw.Run(PROP, tier, seed)
     run_.proof = fw.proof_step(PROP, THEOREMS)
@@ -180,6 +205,7 @@ def run(tier, seed):
     drv = fw.build_ocaml()
     lines, meta = gen_cases(tier, seed)
     evaluate(run_, lines, meta, exe, drv)
+    typed_writers(run_, exe, tier, seed)
     return fw.finish(run_, 'theorems C18_* (all histories, all foreign headers) + differential correspondence', RULE, search)
 
 def search(run_):
